@@ -296,11 +296,18 @@ func TableParse(lx *Lox, names []string, w []int) bool {
 			pos++
 		case lr1.ActionReduce:
 			pr := a.Prods[0]
+			if len(pr.Terms) >= len(stack) {
+				return false // malformed table: pops the bottom of the stack
+			}
 			stack = stack[:len(stack)-len(pr.Terms)]
-			stack = append(stack, t.Transitions(stack[len(stack)-1]).Get(pr.Rule))
+			next := t.Transitions(stack[len(stack)-1]).Get(pr.Rule)
+			if next == nil {
+				return false // malformed table: no goto after a reduce
+			}
+			stack = append(stack, next)
 		}
 	}
-	panic("lox table parse did not terminate")
+	return false // malformed table: does not terminate
 }
 
 // LNode is a parse-tree node built by interpreting lox's table.
